@@ -17,7 +17,9 @@ LEVEL = "exploration"
 RULE = ("all 5 host message types and 4 return message types x boundary-biased field values in their declared "
         "widths (uint32 app/msg ids, uint8 qubit counts / fidelities, int32 socket and node ids and register "
         "values); returned arrays of length 0..300 with EVERY undefined-pattern up to length 6 and random patterns "
-        "above; subroutine messages carry random subroutines of all three flavours. Non-trivial = the message has at "
+        "above; subroutine messages carry random subroutines of all three flavours."
+        ' Returned arrays of 65535 .. 2^20+5 entries. '
+        "Non-trivial = the message has at "
         "least one payload field; distinct = distinct case description.")
 ASSUMPTIONS = ["field values are inside the declared widths (out-of-range values are C16's subject)",
                "type bytes: host INIT=0 OPEN_EPR=1 SUBROUTINE=2 STOP=3 SIGNAL=4; return DONE=0 ERR=1 RET_ARR=2 RET_REG=3"]
